@@ -142,6 +142,41 @@ def h_cond(ctx):
                       info=dict(Y=Y, X=X, style=style), diff=(_real_cond, sym, dict(nice=True, tol=1e-6)))
 
 
+def h_cond_history(ctx):
+    """several conditional() queries on ONE distribution object: the same conditioning set in a different order,
+    a different set, and the first query again - each result must be the exact conditional (no dependence on earlier calls)"""
+    p, Y, X, perm, style = ctx.params['p'], ctx.params['Y'], ctx.params['X'], ctx.params['perm'], ctx.params['style']
+    e = ctx.eng
+    nd, dist, mu, S = sym_dist(ctx, p)
+    xv = [e.real('x_%d' % k) for k in range(len(X))]
+    X2 = [X[k] for k in perm]
+    xv2 = [xv[k] for k in perm]
+    X3 = X[:-1]
+    xv3 = xv[:-1]
+    cl = []
+    try:
+        seq = [(X, xv), (X2, xv2), (X3, xv3), (X, xv)]
+        for n, (Xs, xs) in enumerate(seq):
+            c = dist.conditional(styled(Y, style), styled(Xs, style), styled_x(xs, style))
+            sub = []
+            if len(Xs) == 0:
+                sub.append(('shape', c.mean.shape == (len(Y),)))
+                for a in range(len(Y)):
+                    sub.append(('mean', c.mean[a] == mu[Y[a]]))
+            else:
+                cond_clauses(sub, c, mu, S, Y, Xs, xs)
+            for (nm, f) in sub:
+                cl.append(('query %d on the same object (X = %s): %s' % (n + 1, Xs, nm), f))
+        outcome = 'returned'
+    except np.linalg.LinAlgError:
+        outcome = 'singular conditioning block (outside the statement)'
+    except Exception as ex:
+        outcome = 'raised ' + type(ex).__name__
+        cl.append(('conditional must not raise (%s: %s)' % (type(ex).__name__, ex), False))
+    return PathResult(outcome, cl, inputs=dict(mu=mu, S=S, x=xv, Y=Y, X=X, perm=perm, style=style, dtype='float'), call='history',
+                      info=dict(Y=Y, X=X, perm=perm, style=style))
+
+
 def _np_dist(inp):
     import numpy
     s = real_sempler()
@@ -328,6 +363,16 @@ def obligations(tier):
             ts.append(dict(p=4, Y=list(Y), X1=[rest[0]], X2=[rest[1]]))
     ob.append(Obligation('two_step', h_twostep, ts, "conditioning in two steps equals conditioning jointly",
                          expect=('returned',), weight=8, timeout_ms=180000))
+    hc = []
+    for pp in (3, 4):
+        for Y in ([0], [pp - 1]):
+            rest = [i for i in range(pp) if i not in Y]
+            for X in ([rest[0], rest[1]], [rest[1], rest[0]]) + (([rest[2], rest[0], rest[1]],) if pp == 4 else ()):
+                for perm in itertools.permutations(range(len(X))):
+                    if list(perm) != list(range(len(X))):
+                        hc.append(dict(p=pp, Y=Y, X=list(X), perm=list(perm), style='list' if (len(hc) % 2 == 0) else 'array'))
+    ob.append(Obligation('conditional_history', h_cond_history, hc, "a sequence of conditional() queries on one object: permuted X, a subset, the first query again",
+                         expect=('returned',), weight=6))
     ob.append(Obligation('errors', h_errors, [dict(p=p) for p in (1, 2, 3)], "ValueError contract: overlapping X/Y, len(X) != len(x), size mismatch at construction",
                          expect=('checked',), weight=1))
     if tier == 'thorough':
@@ -397,6 +442,26 @@ def replay(rec):
             any(not _close(a, b) for ra, rb in zip(r[2], ex[1]) for a, b in zip(ra, rb))
         return (bad, 'conditional(Y=%s, X=%s, x=%s) on mu=%s Sigma=%s returned mean %s cov %s; exact: mean %s cov %s'
                 % (inp['Y'], inp['X'], inp['x'], inp['mu'], inp['S'], r[1], r[2], [float(v) for v in ex[0]], [[float(v) for v in rr] for rr in ex[1]]))
+    if call == 'history':
+        import numpy
+        d = _np_dist(inp)
+        X, perm, Y = inp['X'], inp['perm'], inp['Y']
+        x = [_fr(v) for v in inp['x']]
+        seq = [(X, x), ([X[k] for k in perm], [x[k] for k in perm]), (X[:-1], x[:-1]), (X, x)]
+        bad = []
+        for n, (Xs, xs) in enumerate(seq):
+            ex = exact_conditional(mu, S, Y, Xs, xs) if Xs else ([mu[a] for a in Y], [[S[a][b] for b in Y] for a in Y])
+            if ex is None:
+                return (False, 'singular conditioning block')
+            try:
+                c = d.conditional(_np_style(Y, inp['style']), _np_style(Xs, inp['style']), _np_style([float(v) for v in xs], inp['style'], float))
+            except Exception as e2:
+                bad.append('query %d raised %s' % (n + 1, type(e2).__name__))
+                continue
+            if any(not _close(a, b) for a, b in zip(c.mean.tolist(), ex[0])) or any(not _close(a, b) for ra, rb in zip(c.covariance.tolist(), ex[1]) for a, b in zip(ra, rb)):
+                bad.append('query %d (X=%s) returned mean %s cov %s, exact mean %s cov %s' % (n + 1, Xs, c.mean.tolist(), c.covariance.tolist(),
+                                                                                        [float(v) for v in ex[0]], [[float(v) for v in r] for r in ex[1]]))
+        return (len(bad) > 0, 'conditional queries on one object, mu=%s Sigma=%s: %s' % (inp['mu'], inp['S'], '; '.join(bad[:2]) or 'all exact'))
     if call == 'marginal':
         r = _real_marg(inp)
         X = inp['X']
